@@ -481,6 +481,34 @@ let op_latebound (args : str list) : str list =
   | Inl ks -> ["ok"; S.concat " " (List.map ikind_name ks)]
   | Inr ds -> ["err"; S.concat " " (List.map (fun (c, p) -> dec_of_n c ^ "@" ^ dec_of_n p) ds)]
 
+(* the late-bound expression resolver: one event per argument (EN,name=kind;.. EX AS,D AS,N,name AS,A AS,S AE LB,name; other
+   tags are skipped) -> ok V:<hex> E:<hex> .. | error *)
+let vkind_of = function
+  | "none" -> VkNone | "simple" -> VkSimple | "string" -> VkString | "enumvalues" -> VkEnumValues | "enumtype" -> VkEnumType
+  | "fb" -> VkFb | "subrange" -> VkSubrange | "struct" -> VkStruct | "array" -> VkArray | "late" -> VkLate
+  | k -> failwith ("bad kind " ^ k)
+let efact_of (w : str) : efact option =
+  match S.split_on_char ',' w with
+  | "EN" :: rest ->
+      let body = S.concat "," rest in
+      let items = List.filter (fun x -> x <> "") (S.split_on_char ';' body) in
+      Some (EfEnter (List.map (fun it -> match S.split_on_char '=' it with
+                                         | [n; k] -> (text_of_hex n, vkind_of k)
+                                         | _ -> failwith ("bad variable " ^ it)) items))
+  | ["EX"] -> Some EfExit
+  | ["AS"; "D"] -> Some (EfAssign AtDirect)
+  | ["AS"; "N"; n] -> Some (EfAssign (AtNamed (text_of_hex n)))
+  | ["AS"; "A"] -> Some (EfAssign AtArray)
+  | ["AS"; "S"] -> Some (EfAssign AtStruct)
+  | ["AE"] -> Some EfEndAssign
+  | ["LB"; n] -> Some (EfLate (text_of_hex n))
+  | _ -> None
+let op_exprkind (args : str list) : str list =
+  let fs = List.filter_map efact_of (List.filter (fun w -> w <> "") args) in
+  match resolve_expr_kinds fs with
+  | Some rs -> ["ok"; S.concat " " (List.map (function ErVar n -> "V:" ^ hex_of_text n | ErEnum n -> "E:" ^ hex_of_text n) rs)]
+  | None -> ["error"]
+
 (* a library of function blocks and programs: "<hex text>" -> parsed <unit> <unit> .. | rejected | fuel | scope *)
 let sx_items ds =
   let vars = List.filter_map (function DVar (n, c, q, i) -> Some ("(var " ^ lname n ^ " " ^ sx_class c ^ " " ^ sx_qual q ^ " " ^ sx_dinit i ^ ")") | _ -> None) ds in
@@ -567,7 +595,7 @@ let op_lib2render (args : str list) : str list =
 
 let ops : (str * (str list -> str list)) list ref =
   ref [ ("lex", op_lex); ("semtok", op_semtok); ("decode", op_decode); ("lit", op_lit); ("cycle", op_cycle);
-        ("lsp", op_lsp); ("cli", op_cli); ("rule", op_rule); ("expr", op_expr); ("scope", op_scope); ("stmts", op_stmts); ("strender", op_strender); ("rules", op_rules); ("latebound", op_latebound); ("fbd", op_fbd); ("fbdrender", op_fbdrender); ("lib", op_lib); ("lib2", op_lib2); ("lib2render", op_lib2render) ]
+        ("lsp", op_lsp); ("cli", op_cli); ("rule", op_rule); ("expr", op_expr); ("scope", op_scope); ("stmts", op_stmts); ("strender", op_strender); ("rules", op_rules); ("latebound", op_latebound); ("fbd", op_fbd); ("fbdrender", op_fbdrender); ("lib", op_lib); ("lib2", op_lib2); ("lib2render", op_lib2render); ("exprkind", op_exprkind) ]
 
 
 let () =
